@@ -355,6 +355,19 @@ def _tree(x):
     return {"e": kind, "p": [_tree(p) for p in x.iter_parts()]}
 
 
+def _iterable(case, lines, salt):
+    """"An iterable of lines": a list, a tuple, a one-shot iterator or a generator, chosen from the case itself
+    (every form must give the same result)."""
+    form = (len(lines) + sum(len(l) for l in lines) + salt) % 4
+    if form == 0:
+        return lines
+    if form == 1:
+        return tuple(lines)
+    if form == 2:
+        return iter(lines)
+    return (l for l in lines)
+
+
 def run_impl(case):
     from debian._deb822_repro.tokens import tokenize_deb822_file, _RE_FIELD_LINE, _RE_WHITESPACE_LINE
     from debian._deb822_repro.parsing import parse_deb822_file
@@ -373,11 +386,11 @@ def run_impl(case):
     conv = (lambda l: l.encode("utf-8")) if case["bytes"] else (lambda l: l)
     obs = {}
     try:
-        obs["tokens"] = [_tok(t) for t in tokenize_deb822_file([conv(l) for l in case["lines"]])]
+        obs["tokens"] = [_tok(t) for t in tokenize_deb822_file(_iterable(case, [conv(l) for l in case["lines"]], 1))]
     except Exception as e:
         obs["tokens_err"] = err_kind(e)
     try:
-        f = parse_deb822_file([conv(l) for l in case["lines"]],
+        f = parse_deb822_file(_iterable(case, [conv(l) for l in case["lines"]], 0),
                               accept_files_with_error_tokens=True, accept_files_with_duplicated_fields=True)
         obs["tree"] = _tree(f)
         obs["dump"] = f.dump()
